@@ -418,7 +418,9 @@ fn racing_history(lane_no: u64, ops: &Arc<dyn GlobalOps>, round: u64, rep: &Repo
                 let mut accepted = vec![];
                 let mut refused = vec![];
                 let mut s = 0u32;
-                while !stop.load(Ordering::SeqCst) && s < 50_000 {
+                // 3 x 20000 < the queue's capacity (65536): the queue can never overflow, so an entry
+                // that was accepted can only leave it through the stream
+                while !stop.load(Ordering::SeqCst) && s < 20_000 {
                     let id = make_id(1000 + t + 10 * lane_no as u32, s);
                     match ops.try_append(IdEntry { id }) {
                         Ok(()) => accepted.push(id),
